@@ -509,6 +509,10 @@ func c02(c *Ctx) {
 		}
 	}
 
+	// R11 one measure per distinct aggregator (shared with C12.R5)
+	c.Rule("R11", "E3 dominance", "inserter.Instrument: no nil measure is appended, and a measure whose aggregator was already added for this instrument is not appended again (the set is keyed by the aggregator id): every Add reaches each aggregator once", 3)
+	ruleInserterDedup(c, mx, "R11")
+
 	c.Rule("R5", "E3 total fan-out", "every loop that delivers a measurement (or builds the aggregators) for each reader pipeline is total", 8)
 	fan := func(ix *PkgIndex, fname string, isTarget func(info *types.Info, call *ast.CallExpr) bool, what string) {
 		ruleFanout(c, ix, "R5", fname, isTarget, what)
